@@ -17,8 +17,9 @@ func init() {
 func zS() nd.Z { return nd.ZStr("1000000000000000000") }
 
 // H_C04_Conversions: the two conversion helpers of a bid, for every price and amount.
-//   quantity bid A at price p reserves c = ceil(A*p/S):   0 <= c*S - A*p < S
-//   worth bid X at price p converts to q = floor(X*S/p):  0 <= X*S - p*q < p
+//
+//	quantity bid A at price p reserves c = ceil(A*p/S):   0 <= c*S - A*p < S
+//	worth bid X at price p converts to q = floor(X*S/p):  0 <= X*S - p*q < p
 func H_C04_Conversions() {
 	bits := nd.Param("bits", 128)
 	p := nd.DecN("price", bits)
